@@ -103,4 +103,7 @@ def cmp_norm(e, truth=True):
             op = "=="
     diff = {"k": "bin", "op": "-", "l": l, "r": r}
     ts, c = lin(diff)
+    if op in ("==", "!=") and ts and not any(t.startswith("+") for t in ts):
+        # a == b and b == a are the same fact: keep the form whose terms are positive
+        ts, c = tuple(sorted("+" + t[1:] for t in ts)), -c
     return ({"<": "lt", "<=": "le", "==": "eq", "!=": "ne"}[op], ts, c)
